@@ -82,7 +82,7 @@ func execC02(p *drv.Plan) *Out {
 			}
 		}
 		r2 := drv.RunPlan(q, q.Config, drv.Hooks{Prop: "C02"})
-		if r2.Vio != nil {
+		if r2.Vio != nil || (r2.Foreign != nil && r2.Foreign.Oracle == "C10.import-hash") {
 			r1.Vio.Class = "write-path/" + r1.Vio.Class
 		} else {
 			r1.Vio.Class = "read-changed-hash/" + r1.Vio.Class
